@@ -271,6 +271,20 @@ def oracle(ctx, deep=False, broken=None):
             for n, cl, s, dn, rot in menu_requests(ctx, deep)]
     fails = first_failures(reqs, lambda r: check_request(c, r),
                            key=lambda r: {'kind': 'code-data', 'class': r['class'], 'rotated': r['rotated']})
+    if deep:
+        # the top of the size menu (L = 12, and 13 x 12 with the coprime box) for the 2-D surface codes: every
+        # offered size must be served, not only the small ones
+        import panqec.gui._gui as G
+        top = []
+        for n_, klass in G.codes.items():
+            if klass.__name__ in ('Toric2DCode', 'Planar2DCode', 'RotatedPlanar2DCode'):
+                for s_ in ((12, 12), (13, 12)):
+                    if K.supported(klass.__name__, s_):
+                        top.append({'code_name': n_, 'class': klass.__name__, 'size': list(s_), 'deformation': 'None',
+                                    'rotated': False})
+        fails += first_failures(top, lambda r: check_request(c, r),
+                                key=lambda r: {'kind': 'code-data', 'class': r['class'], 'rotated': r['rotated']})
+        reqs = reqs + top
     fails += check_decoders(c)
     f2, n2 = check_decode_and_errors(ctx, c, deep)
     fails += f2
